@@ -43,4 +43,4 @@ def obligations(tier):
 def solver_queries(tier, scratch):
     from vf import lr_lemmas
     from vf import rx_queries as rq
-    return rq.identifier_queries(scratch, "C01", 16 if tier == "quick" else 40) + lr_lemmas.run_lemmas("C01", tier, scratch)
+    return rq.identifier_queries(scratch, "C01", 16 if tier == "quick" else 40) + rq.numeral_queries(scratch, "C01") + lr_lemmas.run_lemmas("C01", tier, scratch)
